@@ -78,14 +78,37 @@ def conv_shard(arg, stt, deadline) -> None:
                    enumerated=True, sample=(i % 401 == 7))
 
 
+CONV_ALPHABET = "ab/._-+*?()[]{}^$|\\ 0"
+
+
+@st.composite
+def conv_cases(draw):
+    """Longer patterns and subjects over every regex metacharacter; the subject is mostly built around the pattern's core
+    so that matches are frequent."""
+    core = draw(st.text(alphabet=CONV_ALPHABET, min_size=1, max_size=8))
+    p = draw(st.sampled_from(["", "*"])) + core + draw(st.sampled_from(["", "*"]))
+    how = draw(st.integers(0, 4))
+    pre = draw(st.text(alphabet=CONV_ALPHABET, max_size=4))
+    post = draw(st.text(alphabet=CONV_ALPHABET, max_size=4))
+    s = {0: core, 1: pre + core, 2: core + post, 3: pre + core + post}.get(how, draw(st.text(alphabet=CONV_ALPHABET, max_size=10)))
+    return {"type": "conv", "pattern": p, "subject": s}
+
+
+def conv_strategy(tier):
+    return conv_cases()
+
+
 def check_conv(spec) -> dict:
     p, s = spec["pattern"], spec["subject"]
-    got = re.match(convert_partial_match_to_regex(p), s) is not None
+    try:
+        got = re.match(convert_partial_match_to_regex(p), s) is not None
+    except re.error as e:
+        return {"violations": [{"sig": "C08/converter/invalid-regex", "key": {}, "detail": f"{p!r}: {e}"}], "nontrivial": True, "labels": ["conv"]}
     want = M.glob_matches(p, s)
     viols = []
     if got != want:
-        viols.append({"sig": "C08/converter/replay", "key": {}, "detail": f"{p!r} vs {s!r}: regex {got}, glob {want}"})
-    return {"violations": viols, "nontrivial": True, "labels": ["conv"]}
+        viols.append({"sig": "C08/converter/random-strings", "key": {}, "detail": f"{p!r} vs {s!r}: regex {got}, glob {want}"})
+    return {"violations": viols, "nontrivial": want, "labels": ["conv", "match" if want else "no-match"]}
 
 
 # ------------------------------------------------------------------------------ tree level
@@ -276,4 +299,5 @@ def run(ctx) -> None:
     if ctx.tier != "quick":
         ctx.exhaustive("glob-to-regex-converter-small-alphabet", MOD, "conv_shard", [("a*.+", 6, 5, i, nsh) for i in range(nsh)],
                        "every pattern over 'a*.+' up to length 6 x every subject up to length 5")
+    ctx.random("glob-to-regex-converter-random-strings", MOD, "conv_strategy", "check_conv", 20000 if ctx.tier == "quick" else 400000)
     ctx.random("trees-with-exclusions", MOD, "strategy", "check_case", 3000 if ctx.tier == "quick" else 150000)
